@@ -472,6 +472,9 @@ class CallMixin:
         if name == "dict":
             if not args and not kwargs:
                 return [(st, VRef(st.alloc(HeapObj("dict", {}), self.refs)))]
+            built = self._dict_from_args(st, args, kwargs)
+            if built is not None:
+                return [(st, VRef(st.alloc(HeapObj("dict", built), self.refs)))]
             return self.havoc_call(st, "dict", args, node)
         h = self.reg.ext_models.get(("new", name))
         if h is not None:
@@ -977,6 +980,35 @@ class CallMixin:
             if c is not ops and c in mapping:
                 return [(st, mapping[c])]
         return self.havoc_call(st, f"dict.{name}", ([obj] if not const else []) + list(args), node)
+
+    def _dict_from_args(self, st, args, kwargs):
+        """dict(mapping_or_pairs, **kw) with concrete keys: a constant table / a dict with concrete keys / a concrete
+        sequence of (key, value) pairs (e.g. zip of two tuples), then keyword entries.  None = not in this fragment."""
+        from .exprs import _NC
+        d = {}
+        if len(args) > 1:
+            return None
+        if args:
+            a = args[0]
+            if isinstance(a, VDictC):
+                d.update(a.items)
+            elif isinstance(a, VRef) and st.obj(a.ref).kind == "dict" and st.obj(a.ref).data is not None:
+                d.update(st.obj(a.ref).data)
+            else:
+                items = self.concrete_items(st, a)
+                if items is None:
+                    return None
+                for it in items:
+                    pair = it.items if isinstance(it, VTuple) else self.concrete_items(st, it)
+                    if pair is None or len(pair) != 2:
+                        return None
+                    k = self.py_const(pair[0])
+                    if k is _NC:
+                        return None
+                    d[k] = pair[1]
+        for k, v in (kwargs or {}).items():
+            d[k] = v
+        return d
 
     # --------------------------------------------------------- str methods --
     def opaque_str(self, st, what, node):
